@@ -108,6 +108,30 @@ def check_bad(row, kind, value):
               f"type-enforcement/{row['type']}/{kind}/accepted", f"{row['cls']}({value!r}) built; dump()={d.hex()[:64]}")]
 
 
+AWARE_OFFSETS = [0, 330, -180, 840, -720, 60]        # minutes east of UTC
+AWARE_INSTANTS = [(2020, 6, 1, 12, 0, 0), (1970, 1, 1, 0, 0, 0), (2001, 9, 9, 1, 46, 40), (1999, 12, 31, 23, 59, 59)]
+
+
+def check_aware(row, off_min, wall):
+    """A timezone-aware datetime denotes one instant: the class either refuses it or encodes exactly that instant
+    (seconds since 1900-01-01 00:00 UTC); it never silently encodes the local wall-clock fields as if they were UTC."""
+    cls = refdict.cls_obj(row["cls"])
+    errors = common.lib_errors()
+    tz = datetime.timezone(datetime.timedelta(minutes=off_min))
+    dt = datetime.datetime(*wall, tzinfo=tz)
+    try:
+        obj = cls(dt)
+        data = obj.data
+    except (Exception,) + errors:
+        return []
+    want = int((dt - datetime.datetime(1900, 1, 1, tzinfo=datetime.timezone.utc)).total_seconds())
+    if data != struct.pack(">I", want):
+        return [V("a timezone-aware datetime is refused or encoded as the instant it denotes",
+                  f"type-enforcement/Time/aware-datetime/{'utc' if off_min == 0 else 'offset'}/wrong-instant",
+                  f"{row['cls']}({dt.isoformat()}) -> {data.hex()} want {want:#010x}")]
+    return []
+
+
 def check_mandatory_missing(row):
     """Grouped with one mandatory member left out (the others present)."""
     vs = []
@@ -298,6 +322,8 @@ def run_case(case):
         return check_bad(row, case["value_kind"], val)
     if k == "missing-mandatory":
         return check_mandatory_missing(refdict.by_cls(case["cls"]))
+    if k == "aware":
+        return check_aware(refdict.by_cls(case["cls"]), case["offset_min"], tuple(case["wall"]))
     if k == "identity":
         return check_identity(case["node"])[2]
     raise ValueError(case)
@@ -313,6 +339,11 @@ def _collect(shard, seed, n_in, of):
         for kind, val in bad_values(row):
             case = {"kind": "bad", "cls": row["cls"], "value_kind": kind, "value_repr": repr(val)[:60]}
             col.record(case, check_bad(row, kind, val), nontrivial=True, classes=["out-of-domain", "type=" + row["type"]])
+        if row["type"] == "Time":
+            for off in AWARE_OFFSETS:
+                for wall in AWARE_INSTANTS:
+                    case = {"kind": "aware", "cls": row["cls"], "offset_min": off, "wall": list(wall)}
+                    col.record(case, check_aware(row, off, wall), nontrivial=True, classes=["aware-datetime", "type=Time"])
         if row["type"] == "Grouped" and row.get("mandatory"):
             case = {"kind": "missing-mandatory", "cls": row["cls"]}
             col.record(case, check_mandatory_missing(row), nontrivial=True, classes=["out-of-domain", "missing-mandatory"])
@@ -339,7 +370,7 @@ def main(ctx):
     col.extra["exhaustive_parts"] = "uniqueness of (vendor, code) over all subclasses; published identity of every class vs vendored dictionary, docs/list-of-avps.md, definitions.py; out-of-domain table per class"
     for path, rec in common.load_replays(PID):
         col.record(rec["case"], run_case(rec["case"]), nontrivial=True, classes=["replay"])
-    ctx.required_classes = ["out-of-domain", "in-domain", "missing-mandatory", "tables"] + ["type=" + t for t in TYPE_NAMES]
+    ctx.required_classes = ["out-of-domain", "in-domain", "missing-mandatory", "tables", "aware-datetime"] + ["type=" + t for t in TYPE_NAMES]
     ctx.assumptions = ["domains per data type as tabled in DESIGN C10 / bad_values(); ints for Address and bools are not judged; "
                        "Address families other than 1/2 are not judged; IPFilterRule is accepted as OctetString"]
     return col
